@@ -171,8 +171,8 @@ def run(ctx):
         campaign.judge(ctx, camp, vs, conformance=conf, clauses=CLAUSES)
         cvs = campaign.validate_cam(camp)
         campaign.judge_cam(ctx, camp, cvs, ["C14."])
-        if not quick:
-            # the repository's own tests, recorded under the hook and replayed through the pushdown machine
+        if True:
+            # the repository's own tests (core, compiler, gallery formats on their sample files), recorded under the hook and replayed through the pushdown machine
             from .. import repotests
             repotests.run(ctx, ["C14."])
         ctx.cov["distinct_nontrivial"] = nt
